@@ -813,14 +813,18 @@ func (x *Exec) fmtArg(verb byte, a value) []*Term {
 				}
 				return x.bytesOf(strVal{s: strconv.FormatUint(v.u, 10)})
 			}
-			if isSigned(iv.t) {
+			// a symbolic integer is rendered digit by digit only when it is known to lie in a small
+			// non-negative range (each rendering forks over the digit count); otherwise — typically the
+			// index inside a panic message — a placeholder stands in. A text with a placeholder that is later
+			// inspected can only yield an unreproduced model (INCONCLUSIVE), never a reported violation.
+			if lo, hi, ok := x.tb.urange(v); ok && hi < 100000 && lo <= hi && isSigned(iv.t) {
 				w := v
 				if w.sort.W < 64 {
-					w = x.tb.Sext(w, 64)
+					w = x.tb.Zext(w, 64)
 				}
 				return x.bytesOf(x.itoa(w))
 			}
-			panic(unsupported{"fmt %d of a symbolic unsigned value"})
+			return x.bytesOf(strVal{s: "<int>"})
 		}
 		if v.sort.K == KBool && v.op == OConst {
 			return x.bytesOf(strVal{s: strconv.FormatBool(v.u == 1)})
